@@ -157,11 +157,12 @@ def rtdc_copy(src_h5file: h5py.Group,
                         if attr not in dst.attrs:
                             dst.attrs[attr] = ufunc(dst)
 
-            elif (include_basins
+            if (include_basins
                     and "basin_events" in src_h5file
                     and feat in src_h5file["basin_events"]):
                 # Also copy internal basins which should have been defined
-                # in the "basin_events" group.
+                # in the "basin_events" group (also if a feature with the
+                # same name is stored in "events").
                 if feat in src_h5file["basin_events"]:
                     h5ds_copy(src_loc=src_h5file["basin_events"],
                               src_name=feat,
